@@ -20,6 +20,9 @@ type ThrCase struct {
 	ScriptSize int         `json:"script_size"`
 	Scope      int         `json:"scope"`
 	Nonce      uint32      `json:"nonce"`
+	// Spell > 0: every script has one of its counts in another spelling (SignerSpec.Spell); the claim holds for those of
+	// them the repository's classifier takes for standard multisignature contracts, the others are only counted.
+	Spell int `json:"spell,omitempty"`
 }
 
 func genThrCase(t *rapid.T) ThrCase {
@@ -32,6 +35,7 @@ func genThrCase(t *rapid.T) ThrCase {
 		ScriptSize: rapid.SampledFrom([]int{1, 100, 252, 253, 1000}).Draw(t, "ssize"),
 		Scope:      rapid.IntRange(0, 7).Draw(t, "scope"),
 		Nonce:      rapid.Uint32().Draw(t, "nonce"),
+		Spell:      rapid.SampledFrom([]int{0, 0, 0, 1, 2, 3, 4, 5, 6, 7, 8, 9, 10, 11, 12}).Draw(t, "spell"),
 	}
 }
 
@@ -56,7 +60,7 @@ func checkThrCase(c ThrCase, o *vt.Obs) error {
 	for n := 1; n <= 7; n++ {
 		for m := 1; m <= n; m++ {
 			all = append(all, mn{m, n})
-			r, _ := k.resolve(SignerSpec{Kind: "multi", Key: c.KeyOff, M: m, N: n})
+			r, _ := k.resolve(SignerSpec{Kind: "multi", Key: c.KeyOff, M: m, N: n, Spell: c.Spell})
 			hashes = append(hashes, r.hash)
 			amounts = append(amounts, 50_0000_0000)
 		}
@@ -68,18 +72,29 @@ func checkThrCase(c ThrCase, o *vt.Obs) error {
 	}
 	o.Labelf("execfee-%d", bc.GetBaseExecFee())
 	for i, x := range all {
-		ms := SignerSpec{Kind: "multi", Key: c.KeyOff, M: x.m, N: x.n, Scope: c.Scope}
+		ms := SignerSpec{Kind: "multi", Key: c.KeyOff, M: x.m, N: x.n, Scope: c.Scope, Spell: c.Spell}
 		spec := TxSpec{ScriptKind: "blob", ScriptSize: c.ScriptSize, Nonce: c.Nonce + uint32(10+i), VUB: uint32(i)}
 		if c.Sender {
 			spec.Signers = []SignerSpec{ms}
 		} else {
 			spec.Signers = []SignerSpec{{Kind: "sig", Key: i}, ms}
 		}
+		if r, _ := k.resolve(ms); !r.standard {
+			// the classifier does not take this spelling for a standard contract: no claim about the calculator
+			if c.Spell == 0 {
+				return fmt.Errorf("harness: builder-made %d-of-%d script is not standard", x.m, x.n)
+			}
+			o.Labelf("spelling-%d-not-standard", c.Spell)
+			continue
+		}
 		T, err := k.build(spec, mods{})
 		if err != nil {
 			return fmt.Errorf("%d-of-%d: %v", x.m, x.n, err)
 		}
-		what := fmt.Sprintf("%d-of-%d multisig (sender=%v): %s", x.m, x.n, c.Sender, describe(T))
+		what := fmt.Sprintf("%d-of-%d multisig (sender=%v, count spelling %d): %s", x.m, x.n, c.Sender, c.Spell, describe(T))
+		if c.Spell > 0 {
+			o.Labelf("spelling-%d-standard", c.Spell)
+		}
 		if err := expectAccept(bc, T.tx, "network fee = calculator's fee; "+what); err != nil {
 			return err
 		}
